@@ -70,7 +70,14 @@ func (l *StartStop) Stop() {
 
 	l.mu.Lock()
 	doneCh := l.doneCh
+	cycleReset := l.startedCh != startedCh
 	l.mu.Unlock()
+	if cycleReset {
+		// The Run this Stop was waiting for has finished and a later Run has already
+		// reset the cycle. That later Run was never signalled by this call, so do not
+		// wait for it.
+		return
+	}
 	verifYield(l, "stop.afterSecond")
 
 	<-doneCh
